@@ -1,8 +1,17 @@
 pub mod c01;
 pub mod c02;
 pub mod c03;
+pub mod c07;
 pub mod c12;
 use crate::check::Prop;
 pub fn all() -> Vec<Box<dyn Prop>> {
-    vec![Box::new(c01::C01), Box::new(c02::C02), Box::new(c03::C03), Box::new(c03::C11), Box::new(c12::C12)]
+    vec![
+        Box::new(c01::C01),
+        Box::new(c02::C02),
+        Box::new(c03::C03),
+        Box::new(c07::C07),
+        Box::new(c07::C08),
+        Box::new(c03::C11),
+        Box::new(c12::C12),
+    ]
 }
